@@ -157,11 +157,11 @@ def main(argv=None):
 
     # ---------------------------------------------------------------- mutation self-test (thorough tier, evidence only)
     mutation = None
-    if tier == "thorough" and os.environ.get("PYVC_MUTATION_BUDGET", "600") != "0":
+    if tier == "thorough" and os.environ.get("PYVC_MUTATION_BUDGET", "300") != "0":
         try:
             from . import mutate
             mutation = mutate.run(pid, [r.qualname for r in reports if not r.unsupported and not r.error],
-                                  budget_s=int(os.environ.get("PYVC_MUTATION_BUDGET", "600")), seed=seed)
+                                  budget_s=int(os.environ.get("PYVC_MUTATION_BUDGET", "300")), seed=seed)
         except Exception as e:  # never a verdict
             mutation = {"error": f"{type(e).__name__}: {e}"}
 
